@@ -2,7 +2,7 @@
 CONSTANTS Pods = {"p1", "p2"}  Tol = {"p2"}
   Starts = {"registered", "unpersisted"}
   VaOwners = {"p1"}  TGPs <- BoolT  Instants <- BoolF
-  MaxFaults = 1  MaxRestarts = 0  MaxLen = 1000
+  MaxFaults = 1  MaxRestarts = 0  MaxLen = 1000  MaxSpont = 99
   Atomic = FALSE  FinalizeMode = "cache"  Weak = ""
 SPECIFICATION Spec
 VIEW view
